@@ -11,7 +11,7 @@ use serde_json::json;
 use std::collections::{HashMap, HashSet};
 use tls_parser::*;
 
-pub const RULE: &str = "complete sweep, seed-independent: (1) each named constant of the 18 registry newtypes is read through its Rust path and compared with the value typed from the IANA registry / defining RFC; (2) every integer of each newtype's domain (14 x 256 + 4 x 65536) is formatted with Display and Debug and judged against the table (exact identifier when named, numeric fallback containing the value otherwise); (3) From/Into, Deref, AsRef, to_be_bytes, LowerHex, from_u16 and cipher-id Display for every value of the 8 types that have them; SignatureScheme hash/sign/reserved for all 65536; (4) NamedGroup::key_bits() for all 65536. distinct_nontrivial counts distinct (family, type, operation, text class / result class) tuples";
+pub const RULE: &str = "complete sweep, seed-independent: (1) each named constant of the 18 registry newtypes is read through its Rust path and compared with the value typed from the IANA registry / defining RFC; (2) every integer of each newtype's domain (14 x 256 + 4 x 65536) is formatted with Display and Debug and judged against the table (exact identifier when named, numeric fallback containing the value otherwise); (3) From/Into, Deref, AsRef, to_be_bytes, LowerHex, from_u16 and cipher-id Display for every value of the 8 types that have them; SignatureScheme hash/sign/reserved for all 65536, and the same two wire bytes decoded by SignatureAndHashAlgorithm::{parse,parse_be,parse_le} and SignatureScheme::{parse,parse_be} (pair = split of the scheme); (4) NamedGroup::key_bits() for all 65536. distinct_nontrivial counts distinct (family, type, operation, text class / result class) tuples";
 pub const ASSUMPTIONS: &[&str] = &[
     "registry values are those typed into harness/src/iana.rs from the IANA registries and RFCs; rows marked certain=false (TlsVersion::DTls11: no such protocol version) are recorded, not judged",
     "code points that are not IANA registrations (GREASE 0xfafa, key_share 40, ticket_early_data_info 46, ESNI 0xffce, NPN 13172 / handshake type 67, TLS 1.3 draft versions 0x7f00|n) are judged against the defining draft",
@@ -459,6 +459,39 @@ pub fn run(ctx: &mut Ctx) {
                         }
                         if res != wres {
                             ctx.violation("c17:sigscheme:is_reserved".into(), json!({"value": format!("0x{:04x}", x16), "expected": wres, "observed": res}));
+                        }
+                    }
+                    // the same two bytes decoded as a (hash, signature) pair and as a scheme, through the types'
+                    // own decoders: the pair is the scheme's split, and the scheme is the big-endian code point
+                    let wire = [(x16 >> 8) as u8, x16 as u8];
+                    let r = ctx.guarded("SignatureAndHashAlgorithm/SignatureScheme decode", &wire, || {
+                        use nom_derive::Parse;
+                        type R<'a, T> = tls_parser::nom::IResult<&'a [u8], T>;
+                        let pairs: [R<SignatureAndHashAlgorithm>; 3] =
+                            [SignatureAndHashAlgorithm::parse(&wire[..]), SignatureAndHashAlgorithm::parse_be(&wire[..]), SignatureAndHashAlgorithm::parse_le(&wire[..])];
+                        let schemes: [R<SignatureScheme>; 2] = [SignatureScheme::parse(&wire[..]), SignatureScheme::parse_be(&wire[..])];
+                        let p: Vec<Option<(u8, u8)>> = pairs.iter().map(|r| r.as_ref().ok().map(|(_, v)| (v.hash.0, v.sign.0))).collect();
+                        let s: Vec<Option<u16>> = schemes.iter().map(|r| r.as_ref().ok().map(|(_, v)| v.0)).collect();
+                        (p, s)
+                    });
+                    if let Some((p, s)) = r {
+                        ctx.evals(5);
+                        ctx.count("sigscheme.decoded");
+                        for (k, got) in p.iter().enumerate() {
+                            if *got != Some((wire[0], wire[1])) {
+                                ctx.violation(
+                                    format!("c17:sigscheme:pair-decode:{}", ["parse", "parse_be", "parse_le"][k]),
+                                    json!({"wire": format!("{:02x}{:02x}", wire[0], wire[1]), "expected_hash_sign": [wire[0], wire[1]], "observed": format!("{:?}", got)}),
+                                );
+                            }
+                        }
+                        for (k, got) in s.iter().enumerate() {
+                            if *got != Some(x16) {
+                                ctx.violation(
+                                    format!("c17:sigscheme:scheme-decode:{}", ["parse", "parse_be"][k]),
+                                    json!({"wire": format!("{:02x}{:02x}", wire[0], wire[1]), "expected": x16, "observed": format!("{:?}", got)}),
+                                );
+                            }
                         }
                     }
                 }
